@@ -58,9 +58,9 @@ def InvG (v : Variant) (s : State) : Prop :=
 theorem invG_init (v : Variant) (m : Bool) : InvG v { memPw := m } := by
   simp [InvG]
 
-theorem invG_spExec (v : Variant) (lk au ar mp : Bool) (c : Call)
-    (hi : InvG v { locked := lk, auth := au, armed := ar, memPw := mp, sp := some c }) :
-    InvG v (spExec v { locked := lk, auth := au, armed := ar, memPw := mp, sp := some c } c).1 := by
+theorem invG_spExec (v : Variant) (lk au ar mp tk : Bool) (c : Call)
+    (hi : InvG v { locked := lk, auth := au, armed := ar, memPw := mp, ticket := tk, sp := some c }) :
+    InvG v (spExec v { locked := lk, auth := au, armed := ar, memPw := mp, ticket := tk, sp := some c } c).1 := by
   obtain ⟨nxt, temp, oldOk, writeOk, deferOn, res⟩ := c
   obtain ⟨vf, tu⟩ := v
   cases nxt <;> cases deferOn <;> cases lk <;> cases au <;> cases temp <;>
@@ -68,7 +68,7 @@ theorem invG_spExec (v : Variant) (lk au ar mp : Bool) (c : Call)
 
 theorem invG_step (v : Variant) (s s' : State) (l : Label) (o : Out)
     (hi : InvG v s) (hs : Sched s l) (h : step v s l = some (s', o)) : InvG v s' := by
-  obtain ⟨lk, au, ar, mp, sp⟩ := s
+  obtain ⟨lk, au, ar, mp, tk, sp⟩ := s
   cases sp with
   | none =>
     cases l <;> simp only [step] at h
@@ -79,6 +79,11 @@ theorem invG_step (v : Variant) (s s' : State) (l : Label) (o : Out)
     case unlock => simp at h
     case guarded => simp at h
     case sign => simp at h
+    case guardedTicket => simp at h
+    case reporter =>
+      simp only [Option.some.injEq, Prod.mk.injEq] at h
+      obtain ⟨rfl, rfl⟩ := h
+      exact hi
     case spBegin => simp at h
     case restart => simp at h
     case read =>
@@ -99,7 +104,7 @@ theorem invG_step (v : Variant) (s s' : State) (l : Label) (o : Out)
       · simp at h
     case spStep =>
       simp only [Option.some.injEq] at h
-      have := invG_spExec v lk au ar mp _ hi
+      have := invG_spExec v lk au ar mp tk _ hi
       rw [h] at this
       exact this
 
@@ -120,14 +125,14 @@ theorem struct_spExec (v : Variant) (s : State) (c : Call) (hsp : s.sp = some c)
   have h := hi c hsp
   obtain ⟨nxt, temp, oldOk, writeOk, deferOn, res⟩ := c
   obtain ⟨vf, tu⟩ := v
-  obtain ⟨lk, au, ar, mp, sp⟩ := s
+  obtain ⟨lk, au, ar, mp, tk, sp⟩ := s
   cases nxt <;> cases deferOn <;> cases vf <;> cases tu <;> cases oldOk <;> cases writeOk <;> cases lk <;>
     intro c' hc' <;> simp [spExec, failWith] at hc' <;> (try subst hc') <;> first | done | simp_all
 
 /-- a step that is not `spStep` leaves a running call untouched and can only start one at its first op. -/
 theorem struct_step (v : Variant) (s s' : State) (l : Label) (o : Out)
     (hi : StructInv v s) (h : step v s l = some (s', o)) : StructInv v s' := by
-  obtain ⟨lk, au, ar, mp, sp⟩ := s
+  obtain ⟨lk, au, ar, mp, tk, sp⟩ := s
   cases l with
   | spStep =>
     cases sp with
@@ -165,6 +170,16 @@ theorem struct_step (v : Variant) (s s' : State) (l : Label) (o : Out)
       simp only [step, Option.some.injEq, Prod.mk.injEq] at h
       obtain ⟨rfl, rfl⟩ := h
       exact hi
+  | guardedTicket =>
+    cases sp with
+    | some c => simp [step] at h
+    | none =>
+      simp only [step] at h
+      (repeat' split at h) <;> simp only [Option.some.injEq, Prod.mk.injEq] at h <;> obtain ⟨rfl, rfl⟩ := h <;> exact hi
+  | reporter b =>
+    simp only [step, Option.some.injEq, Prod.mk.injEq] at h
+    obtain ⟨rfl, rfl⟩ := h
+    exact hi
   | restart =>
     cases sp with
     | some c => simp [step] at h
@@ -218,7 +233,7 @@ theorem code_spExec_flag (s : State) (c : Call) (hn : c.nxt = .verify ∨ c.nxt 
 
 theorem invR_step (s s' : State) (l : Label) (o : Out) (hst : StructInv code s)
     (hi : InvR s) (h : step code s l = some (s', o)) : InvR s' := by
-  obtain ⟨lk, au, ar, mp, sp⟩ := s
+  obtain ⟨lk, au, ar, mp, tk, sp⟩ := s
   cases l with
   | spStep =>
     cases sp with
@@ -226,7 +241,7 @@ theorem invR_step (s s' : State) (l : Label) (o : Out) (hst : StructInv code s)
     | some c =>
       simp only [step, Option.some.injEq] at h
       have hc := (hst c rfl).2.2 rfl rfl
-      have := code_spExec_flag { locked := lk, auth := au, armed := ar, memPw := mp, sp := some c } c hc.1 hc.2
+      have := code_spExec_flag { locked := lk, auth := au, armed := ar, memPw := mp, ticket := tk, sp := some c } c hc.1 hc.2
       rw [h] at this
       simp only at this
       simp only [InvR] at hi ⊢
@@ -260,6 +275,16 @@ theorem invR_step (s s' : State) (l : Label) (o : Out) (hst : StructInv code s)
       simp only [step, Option.some.injEq, Prod.mk.injEq] at h
       obtain ⟨rfl, rfl⟩ := h
       exact hi
+  | guardedTicket =>
+    cases sp with
+    | some c => simp [step] at h
+    | none =>
+      simp only [step] at h
+      (repeat' split at h) <;> simp only [Option.some.injEq, Prod.mk.injEq] at h <;> obtain ⟨rfl, rfl⟩ := h <;> exact hi
+  | reporter b =>
+    simp only [step, Option.some.injEq, Prod.mk.injEq] at h
+    obtain ⟨rfl, rfl⟩ := h
+    exact hi
   | restart =>
     cases sp with
     | some c => simp [step] at h
@@ -315,6 +340,10 @@ theorem noSp_sp_none {v : Variant} {s : State} (h : ReachNoSp v s) : s.sp = none
       simp only [step, ih] at hst
       split at hst <;> simp only [Option.some.injEq, Prod.mk.injEq] at hst <;> rw [← hst.1] <;> exact ih
     | sign a p => simp only [step, ih, Option.some.injEq, Prod.mk.injEq] at hst; rw [← hst.1]; exact ih
+    | guardedTicket =>
+      simp only [step, ih] at hst
+      (repeat' split at hst) <;> simp only [Option.some.injEq, Prod.mk.injEq] at hst <;> rw [← hst.1] <;> exact ih
+    | reporter b => simp only [step, Option.some.injEq, Prod.mk.injEq] at hst; rw [← hst.1]; exact ih
     | restart => simp only [step, ih, Option.some.injEq, Prod.mk.injEq] at hst; rw [← hst.1]
     | unlock a b c =>
       simp only [step, ih] at hst
